@@ -20,12 +20,12 @@ PROPS = {
         coq_targets_thorough=["Props/Properties_C02x.vo", "Props/Properties_C02lx.vo"],
         props_files=["Props/Properties_C02.v", "Props/Properties_C02t.v", "Props/Properties_C02l.v", "Props/Properties_C02k.v", "Props/Properties_C02k2.v"],
         props_files_thorough=["Props/Properties_C02x.v", "Props/Properties_C02lx.v"],
-        cone=["Proofs/C02_*.v", "Props/Properties_C02*.v", "Doc/Exp.v", "Base/Kernels.v", "Base/KernelQ.v", "Base/Trig.v"],
+        cone=["Proofs/C02_*.v", "Props/Properties_C02*.v", "Doc/Exp.v", "Base/Kernels.v", "Base/KernelQ.v", "Base/KernelL.v", "Base/Trig.v"],
         harnesses=[dict(name="h_c02")],
         trusted_base=TB_COMMON + ["Doc/Exp.v: hand-written closed-form flows t |-> Phi_a(t) (Rodrigues etc.), proved in Coq to solve Phi' = Phi hat(a), Phi(0)=I; `is_mexp` = value at 1 of such a curve (uniqueness of the ODE solution is classical and not formalised)",
                                   "harness/h_c02.cpp + docmat.hpp: long-double scaling-and-squaring Taylor oracle for expm(hat a)"],
         assumptions=["rounding is not modelled: the 1e-9/1e-3 accuracy clause and the log round trips are decided by the oracle harness on stratified inputs",
-                     "log: range and both exact round trips are theorems for SO2 and C1 (unconditional), SO3 and SE2 (closed-form branches of exp and log; SO3 on the canonical hemisphere qw >= 0; SE2 for angles strictly inside (-pi, pi); SE3 both round trips in the thorough tier for angles below pi); the series branches of log, Galilei/SE_K_3 log and the behaviour at exactly pi are decided by the harness; truncation theorems are at kernel level (trig.hpp) and at function level for the exp of SO3, SE2, SE3, Galilei and SE_K_3<1..3> (rotation and translation parts: series path = closed-form path with the kernels replaced by their Taylor polynomials, kernel differences bounded)"],
+                     "log: range and both exact round trips are theorems for SO2 and C1 (unconditional), SO3 and SE2 (closed-form branches of exp and log; SO3 on the canonical hemisphere qw >= 0; SE2 for angles strictly inside (-pi, pi); SE3 both round trips in the thorough tier for angles below pi); the series branch of SE2 log is proved to be the closed-form branch with (th/2)/tan(th/2) replaced by 1 - th^2/12 (kernel difference <= th^4/600); the other series branches of log, Galilei/SE_K_3 log and the behaviour at exactly pi are decided by the harness; truncation theorems are at kernel level (trig.hpp) and at function level for the exp of SO3, SE2, SE3, Galilei and SE_K_3<1..3> (rotation and translation parts: series path = closed-form path with the kernels replaced by their Taylor polynomials, kernel differences bounded)"],
     ),
     "C06": dict(
         tracer_units=["SO2", "SO3", "SE2", "SE3", "SE3H", "C1", "Rn", "BA", "BB", "BC", "BD", "BEi", "BE", "BF", "BG"],
